@@ -153,6 +153,7 @@ def units_for(tier: str) -> List[Any]:
     units += [(p, None) for p in programs.with_actions(small, ('out', 'cs_raise', 'kill', 'pause'))]
     scripts = [(ev, 1, op) for ev in ('running', 'waiting', 'paused', 'output_emitted')
                for op in (('kill', 't1'),)]
+    scripts += [(ev, 1, ('addl',)) for ev in ('running', 'finished')]
     for p in list(programs.linear_programs(2, ('S', 'Y1'), ('cont', 'wait'), ('ret',))):
         for s in scripts:
             units.append((p, s))
